@@ -75,6 +75,11 @@ type fault struct {
 	// oldReplay: the previous session the replayed messages come from ended
 	// two hours before the current connection.
 	oldReplay bool
+	// between: what happens to the two routers' per-peer sessions between the recorded
+	// session and the connection that carries the replay ("" = nothing): the state calls
+	// the router makes when the peer reports lost end-to-end keys, when an end-to-end key
+	// setup completes, or when the peer announced that it goes down.
+	between string
 }
 
 func (f fault) String() string {
@@ -89,6 +94,9 @@ func (f fault) String() string {
 	}
 	if f.oldReplay {
 		n += " of a session that ended two hours and one connection ago"
+	}
+	if f.between != "" {
+		n += " [between the recorded session and this connection: " + f.between + "]"
 	}
 	return fmt.Sprintf("%s msg%d (%s, b-first=%v)", n, f.msg, msgName(f), f.bFirst)
 }
@@ -173,6 +181,25 @@ func run(t *testing.T, c hsConfig, f fault) (o outcome) {
 				w2.EB.FeedEOF()
 				synctest.Wait()
 				time.Sleep(time.Hour)
+			}
+			switch f.between {
+			case "":
+			case "reset-encryption":
+				// what the error handler does when the peer reports "no encryption keys".
+				_ = a.State().SetEncryptionSession(b.Identity().IP, nil)
+				_ = b.State().SetEncryptionSession(a.Identity().IP, nil)
+			case "key-setup":
+				if err := kit.KeySessions(a, b); err != nil {
+					panic(err)
+				}
+			case "marked-offline":
+				_ = a.State().MarkRouterOffline(b.Identity().IP)
+				_ = b.State().MarkRouterOffline(a.Identity().IP)
+			default:
+				panic("harness: unknown event " + f.between)
+			}
+			if f.between != "" {
+				time.Sleep(time.Second)
 			}
 		}
 		// byte streams each end was fed, and would have been fed by an honest network.
@@ -375,7 +402,7 @@ func isErrorNotice(wire []byte) bool {
 func TestC04(t *testing.T) {
 	env := kit.GetEnv()
 	rep := kit.NewReport("C04", env)
-	rep.Rule = "configurations: ordered identity pairs (incl. self-connection) x universe {same, different, both empty} x secret {same, different, only A, only B, none}; faults on each of the six handshake messages: every bit of every byte (one configuration; the others: header, first/last 16 body bytes and signature), truncation to every length (step 1 for the first 60 bytes, then every 7th), drop, duplicate, replay of the same-position message recorded from a previous complete session of the same pair (ended just before, or two hours and one further connection ago), reflection to the sender (instead of / in addition to forwarding), under both dispatch orders of simultaneous messages; for a representative fault of every kind on every message: after the disturbed connection has ended the same two routers connect again undisturbed, and that connection must establish with working link keys; an active impostor with its own key pair that speaks the full protocol claiming another router's address, over connection sequences (forged key / genuine address, router known or unknown beforehand); an attacker with its own valid identity but without the universe secret that copies the victim's challenge and lifts the victim's universe proof; a three-party relay in which the attacker peers with the real P under its own identity using the victim's challenge and passes P's signed messages on to the victim; outcome on both ends after bubble quiescence, including whether the receiver of a faulted message wrote anything but an error notice afterwards; non-trivial = any fault other than none / harmless TTL-flow bits, or a configuration that must be refused; states = distinct (registered-at-A, registered-at-B, rounds) outcomes per (config, fault)"
+	rep.Rule = "configurations: ordered identity pairs (incl. self-connection) x universe {same, different, both empty} x secret {same, different, only A, only B, none}; faults on each of the six handshake messages: every bit of every byte (one configuration; the others: header, first/last 16 body bytes and signature), truncation to every length (step 1 for the first 60 bytes, then every 7th), drop, duplicate, replay of the same-position message recorded from a previous complete session of the same pair (ended just before, or two hours and one further connection ago, or followed by one of the per-peer session events of a running router: end-to-end keys reset after the peer reported them lost, an end-to-end key setup, the peer marked offline), reflection to the sender (instead of / in addition to forwarding), under both dispatch orders of simultaneous messages; for a representative fault of every kind on every message: after the disturbed connection has ended the same two routers connect again undisturbed, and that connection must establish with working link keys; an active impostor with its own key pair that speaks the full protocol claiming another router's address, over connection sequences (forged key / genuine address, router known or unknown beforehand); an attacker with its own valid identity but without the universe secret that copies the victim's challenge and lifts the victim's universe proof; a three-party relay in which the attacker peers with the real P under its own identity using the victim's challenge and passes P's signed messages on to the victim; outcome on both ends after bubble quiescence, including whether the receiver of a faulted message wrote anything but an error notice afterwards; non-trivial = any fault other than none / harmless TTL-flow bits, or a configuration that must be refused; states = distinct (registered-at-A, registered-at-B, rounds) outcomes per (config, fault)"
 	rep.Assumptions = []string{
 		"both ends run the real handleSetup; the adversary only controls the byte stream (it holds no private key)",
 		"blocked-forever handshakes are legal outcomes ('no link'), observed through bubble quiescence, never through a timeout",
@@ -533,6 +560,14 @@ func TestC04(t *testing.T) {
 					if k == fReplayPrev && mine() {
 						f := fault{kind: k, msg: mi, bFirst: bf, oldReplay: true}
 						judge(c, f, run(t, c, f))
+					}
+					if k == fReplayPrev && c.ia != c.ib {
+						for _, ev := range []string{"reset-encryption", "key-setup", "marked-offline"} {
+							if mine() {
+								f := fault{kind: k, msg: mi, bFirst: bf, between: ev}
+								judge(c, f, run(t, c, f))
+							}
+						}
 					}
 				}
 			}
